@@ -296,16 +296,30 @@ impl TypeAddress {
         }
 
         // should be a valid typescript identifier
-        let acc = format!(
-            "{}__{}",
-            to_valid_ts_identifier(&Self::min_file_path_that_differs(
-                &self.file,
-                &has_same_name
-            )),
-            self.name
-        );
-
-        acc
+        let prefix_of = |addr: &TypeAddress| {
+            let mut others = has_same_name.clone();
+            others.push(self.clone());
+            others.retain(|it| it != addr);
+            to_valid_ts_identifier(&Self::min_file_path_that_differs(&addr.file, &others))
+        };
+        let prefix = prefix_of(self);
+        // `a/b.ts` and `a_b.ts` are different files with the same sanitized path: number them (in the order of the paths)
+        let mut same_prefix = has_same_name
+            .iter()
+            .filter(|it| it.file != self.file && prefix_of(it) == prefix)
+            .map(|it| it.file.clone())
+            .collect::<Vec<_>>();
+        if same_prefix.is_empty() {
+            return format!("{}__{}", prefix, self.name);
+        }
+        same_prefix.push(self.file.clone());
+        same_prefix.sort();
+        same_prefix.dedup();
+        let rank = same_prefix
+            .iter()
+            .position(|it| it == &self.file)
+            .expect("just pushed");
+        format!("{}_{}__{}", prefix, rank, self.name)
     }
 }
 
